@@ -120,13 +120,16 @@ class Box:
                     new_end_coord[-3] -= first_row
                     original_end_coord[-3] -= first_row
 
-                total_stride = stride * (new_end_coord[-3] - new_start_coord[-3] - 1)
+                # The last kernel position belongs to the last OFM row. The OFM can have more rows than the IFM (a PAD
+                # folded into a VALID convolution with an even kernel), so the end that was clipped to the IFM height
+                # above must not be used for it
+                total_stride = stride * (original_end_coord[-3] - new_start_coord[-3] - 1)
                 new_start_coord[-3] = new_start_coord[-3] * stride - skirt[0] + skirt_top_remainder
 
                 pad_top = max(0, 0 - new_start_coord[-3]) + skirt_top_remainder
                 new_start_coord[-3] = max(new_start_coord[-3], 0)
 
-                if (new_end_coord[-3] * stride + skirt[2]) > (ifm_shape.height * upscaling_factor):
+                if (original_end_coord[-3] * stride + skirt[2]) > (ifm_shape.height * upscaling_factor):
                     # pad_bottom is calculated based the diff between the end position of the weight kernel,
                     # after last stride and the ifm height.
                     if upscaling_factor != 1 and original_end_coord[-3] > ifm_shape.height * upscaling_factor:
